@@ -31,6 +31,8 @@ pub static mut REPLAY_OK: bool = false;
 pub fn bus_reset(rd: [u8; 4], code: [u8; 3]) {
   unsafe { RD = rd; NRD = 0; NEV = 0; CODE = [code[0], code[1], code[2], 0]; REPLAY = false; REPLAY_POS = 0; REPLAY_OK = true; }
 }
+/// Serve these instruction bytes from the fetch stub (solver side; natively the harness also writes them to ROM).
+pub fn set_code(code: [u8; 3]) { unsafe { CODE = [code[0], code[1], code[2], 0]; } }
 /// Second engine: replay against the log recorded by the first.
 pub fn bus_start_replay() { unsafe { REPLAY = true; REPLAY_POS = 0; REPLAY_OK = true; NRD = 0; } }
 pub fn bus_replay_complete() -> bool { unsafe { REPLAY_OK && REPLAY_POS == NEV } }
